@@ -203,6 +203,12 @@ impl SimWriter {
     let b = wire::acknack_msg(rguid(r), self.wguid, base, set, self.acount, true);
     self.inject(&b);
   }
+  /// reader r asks for fragments `frags` of sample `sn` again
+  pub fn nackfrag(&mut self, r: u8, sn: i64, frags: &[u32]) {
+    self.acount += 1;
+    let b = wire::nackfrag_msg(rguid(r), self.wguid, sn, frags, self.acount);
+    self.inject(&b);
+  }
   pub fn inject(&mut self, bytes: &[u8]) {
     self.rk.mr.handle_received_packet(&Bytes::copy_from_slice(bytes));
     self.pump_acks();
